@@ -3,8 +3,13 @@
 From Coq Require Extraction.
 From Coq Require Import ExtrOcamlBasic.
 From Coq Require Import List NArith.
-From SosModel Require Import base.Sha256 model.Merkle.
+From SosModel Require Import base.Sha256 model.Merkle base.Bytes model.Formats.
 Extraction "../driver/model.ml"
   Sha256.sha256
   Merkle.root Merkle.head Merkle.proof_at Merkle.tree_compare Merkle.verify_leaves
-  Merkle.verify_leaves_pinned.
+  Merkle.verify_leaves_pinned
+  Formats.p_time Formats.e_time Formats.p_aead Formats.e_aead Formats.p_vcommit Formats.e_vcommit
+  Formats.p_write_event Formats.e_write_event Formats.p_account_event Formats.e_account_event
+  Formats.p_file_event Formats.e_file_event Formats.p_record Formats.e_record
+  Formats.p_cproof Formats.e_cproof Formats.p_cstate Formats.e_cstate
+  Formats.p_comparison Formats.e_comparison Formats.decode_top.
